@@ -116,6 +116,74 @@ def ref_rpsi(d):
 
 
 # ------------------------------------------------------------------------------------------------
+# iterator adaptors and string accessors: consistency with what next() / the slice accessors gave
+
+def adapt_of(elems):
+    """the `.adapt` rendering (PROTOCOL.md §5 ADAPT) of an iterator whose next()-driven list is elems"""
+    j = lambda xs: ",".join(xs) if xs else "-"
+    return ";".join([str(len(elems)), elems[-1] if elems else "none", j(elems[1:]),
+                     elems[2] if len(elems) > 2 else "none", j(elems[0::2]), elems[2] if len(elems) > 2 else "none"])
+
+
+def elems_of(V, key):
+    """element renderings behind `key.adapt` in view dict V (prefix stripped); None if not derivable"""
+    base = key[:-len(".adapt")] if key != "adapt" else ""
+    if key == "adapt":                                   # compound
+        n = V.get("n", "")
+        return [V.get(f"p{i}.res", "?") for i in range(int(n))] if n.isdigit() else None
+    v = V.get(base)
+    if v is None or "panic" in v or v == "cap": return None
+    if base == "rbs": return [V.get(f"rb{i}", "?") for i in range(int(v))] if v.isdigit() else None
+    if base == "chunks": return [V.get(f"c{i}.ssrc", "?") for i in range(int(v))] if v.isdigit() else None
+    if base.endswith(".items"):
+        c = base[:-len(".items")]
+        return [V.get(f"{c}.i{i}", "?").split(",")[0] for i in range(int(v))] if v.isdigit() else None
+    if base.startswith("fci."):
+        if not v.startswith("ok"): return None
+        v = v[3:] if v.startswith("ok:") else "-"
+    return [] if v == "-" else v.split(",")
+
+
+def adapt_failures(V, tag, only=None):
+    out = []
+    for k, v in V.items():
+        if not (k == "adapt" or k.endswith(".adapt")): continue
+        if only is not None and not only(k): continue
+        if v in ("cap",): continue
+        el = elems_of(V, k)
+        if el is None: continue
+        want = adapt_of(el)
+        if v != want:
+            out.append(f"{tag}{k}={v[:90]}: count/last/skip/nth/step_by disagree with next()-driven iteration ({want[:90]})")
+    return out
+
+
+def utf8_val(b):
+    try:
+        b.decode("utf-8"); return "ok:" + hexb(b)
+    except UnicodeDecodeError:
+        return "err"
+
+
+def string_failures(V, tag, b=None):
+    """name_str / reason_str / item .str against the bytes the slice accessors returned"""
+    out = []
+    if "name_str" in V and "name" in V and "panic" not in V["name"]:
+        nm = unhex(V["name"]); nm = nm[:nm.index(0)] if 0 in nm else nm
+        if V["name_str"] != utf8_val(nm): out.append(f"{tag}get_name_string()={V['name_str']} but name()={V['name']}")
+    if "reason_str" in V and "reason" in V and "panic" not in V["reason"]:
+        want = "none" if V["reason"] == "none" else utf8_val(parse_slice(V["reason"])[0])
+        if V["reason_str"] != want: out.append(f"{tag}get_reason_string()={V['reason_str']} but reason()={V['reason'][:60]}")
+    for k, v in V.items():
+        if k.endswith(".str") and k[:-4] in V:
+            it = V[k[:-4]].split(",", 3)
+            if len(it) == 4 and "@" in it[2]:
+                want = utf8_val(parse_slice(it[2])[0])
+                if v != want: out.append(f"{tag}{k}={v[:60]} but value()={it[2][:60]}")
+    return out
+
+
+# ------------------------------------------------------------------------------------------------
 # C01
 
 def oracle_C01(ctx, i):
@@ -176,6 +244,7 @@ def oracle_C02(ctx, i):
     expect(I, "rt.rbs", len(cfg["rbs"]), out)
     for j, rb in enumerate(cfg["rbs"]):
         expect(I, f"rt.rb{j}", rb_str(rb), out)
+    out += adapt_failures(pfx(I, "rt."), "rt.")
     return out
 
 
@@ -212,6 +281,11 @@ def oracle_C03(ctx, i):
             if it["type"] == 8:
                 want = it.get("prefix") or b""
                 if pb != want: out.append(f"rt.c{ci}.i{ji} prefix {v} expected {want.hex()}")
+            sv = I.get(f"rt.c{ci}.i{ji}.str")
+            if sv is not None and sv != "ok:" + hexb(it["value"]):
+                out.append(f"rt.c{ci}.i{ji}.str={sv[:60]} expected the configured text {hexb(it['value'])[:60]}")
+    V = pfx(I, "rt.")
+    out += adapt_failures(V, "rt.") + string_failures(V, "rt.")
     return out
 
 
@@ -237,6 +311,10 @@ def oracle_C04(ctx, i):
         v = I.get("rt.data", "")
         if "@" not in v or parse_slice(v)[0] != cfg["data"]:
             out.append(f"rt.data={v[:80]} expected {cfg['data'].hex()[:80]}")
+    if cfg["k"] == "bye" and cfg.get("reason") and I.get("rt.reason_str") not in (None, "ok:" + hexb(cfg["reason"])):
+        out.append(f"rt.reason_str={I.get('rt.reason_str')[:60]} expected the configured text {hexb(cfg['reason'])[:60]}")
+    V = pfx(I, "rt.")
+    out += adapt_failures(V, "rt.") + string_failures(V, "rt.")
     return out
 
 
@@ -290,6 +368,7 @@ def oracle_C05(ctx, i):
             g = canon_fir(got) if f["k"] == "fir" else got
             if g != want:
                 out.append(f"rt.fci.{f['k']}={got[:120]} expected {want[:120]}")
+    out += adapt_failures(pfx(I, "rt."), "rt.")
     return out
 
 
@@ -584,6 +663,7 @@ def oracle_C09(ctx, i):
                 k = V.get("variant", "unknown")
             if k in ("sr", "rr", "rb", "app", "bye", "tfb", "pfb", "unknown"):
                 c09_view(V, k, b, out, p)
+                out += string_failures(V, p) + adapt_failures(V, p, only=lambda kk: kk in ("rbs.adapt", "ssrcs.adapt"))
         wf = meta.get("wf")
         if p == "" and wf is not None and r != "ok" and kind_name(kind) in ("sr", "rr", "rb", "app", "bye", "tfb", "pfb", "unknown", "packet"):
             # a raw packet from the unknown builder carrying a known type number is not a
@@ -667,6 +747,7 @@ def oracle_C10(ctx, i):
         body = b[4:len(b) - padlen(b)]
         verdict, toks = ref_tokenise(body)
         if r == "ok":
+            out += adapt_failures(pfx(I, p), p) + string_failures(pfx(I, p), p)
             got = sdes_tokens_of_view(pfx(I, p))
             if verdict == "reject":
                 out.append(f"{p}accepted although {toks}")
@@ -712,6 +793,7 @@ def oracle_C11(ctx, i):
     n = int(n)
     if n > len(ts): out.append(f"iterator yielded {n} items for {len(ts)} tiles")
     if I.get("after") != "none,none,none": out.append(f"next() after the end returned {I.get('after')}")
+    out += adapt_failures({k: v for k, v in I.items() if k in ("adapt", "n") or k.endswith(".res")}, "")
     comp = meta.get("tile_reqs")
     stopped = False
     for j in range(min(n, len(ts))):
@@ -907,6 +989,7 @@ def oracle_C15(ctx, i):
     I, meta = ctx.I[i], ctx.metas[i]
     out = []
     for p, kind, b in view_prefixes(meta):
+        out += adapt_failures(pfx(I, p), p, only=lambda kk: kk.startswith(("entries", "fci.")))
         k = kind_name(kind)
         r = I.get(p + "res")
         if k in FCI_KINDS:
